@@ -648,11 +648,8 @@ func extractSessionCompositeKey(data any, keys []string) string {
 	if m, ok := data.(map[string]any); ok {
 		parts := make([]string, 0, len(keys))
 		for _, k := range keys {
-			if val, exists := m[k]; exists {
-				parts = append(parts, cast.ToString(val))
-			} else {
-				parts = append(parts, "")
-			}
+			val, exists := m[k]
+			parts = append(parts, encodeKeyPart(val, exists))
 		}
 		return strings.Join(parts, "|")
 	}
@@ -665,19 +662,19 @@ func extractSessionCompositeKey(data any, keys []string) string {
 
 	parts := make([]string, 0, len(keys))
 	for _, k := range keys {
-		var part string
+		part := encodeKeyPart(nil, false)
 		switch v.Kind() {
 		case reflect.Map:
 			if v.Type().Key().Kind() == reflect.String {
 				mv := v.MapIndex(reflect.ValueOf(k))
 				if mv.IsValid() {
-					part = cast.ToString(mv.Interface())
+					part = encodeKeyPart(mv.Interface(), true)
 				}
 			}
 		case reflect.Struct:
 			f := v.FieldByName(k)
 			if f.IsValid() {
-				part = cast.ToString(f.Interface())
+				part = encodeKeyPart(f.Interface(), true)
 			}
 		}
 		parts = append(parts, part)
